@@ -156,10 +156,14 @@ def _case_of(graph, init, path, cid, origin):
             "model_bad": bad}
 
 
-def _schedules(graph, per3, cover_cap, rnd, next_id):
+def _schedules(graph, per3, cover_cap, rnd, next_id, quick):
     '''All schedules of <= 2 runs; for 3 runs `per3` uniformly drawn schedules
-    per configuration plus schedules through edges not yet covered.'''
-    cases, info = [], {"all": 0, "sampled": 0, "cover": 0, "paths3": 0}
+    per configuration plus schedules through edges not yet covered.
+    Quick tier: in the 'multiple' scheme only configurations with identical
+    kernels and no/an identical earlier file are replayed (no action of that
+    scheme reads the kernel version, it only labels the written content).'''
+    cases, info = [], {"all": 0, "sampled": 0, "cover": 0, "paths3": 0,
+                       "configurations": 0, "configurations_not_replayed": 0}
     covered = set()
 
     def add(init, path, origin):
@@ -172,7 +176,12 @@ def _schedules(graph, per3, cover_cap, rnd, next_id):
 
     three = []
     for init in graph.inits:
-        nruns = sum(1 for p in json.loads(init)[4] if p != "off")
+        scheme, pre, ver, _, pcs = json.loads(init)[:5]
+        nruns = sum(1 for p in pcs if p != "off")
+        if quick and scheme == "multiple" and (set(ver) != {1} or pre == 2):
+            info["configurations_not_replayed"] += 1
+            continue
+        info["configurations"] += 1
         if nruns <= 2 or graph.count(init) <= per3:
             for path in graph.all_paths(init):
                 add(init, path, "all")
@@ -211,8 +220,7 @@ def _schedules(graph, per3, cover_cap, rnd, next_id):
                 prefix.reverse()
                 add(init, prefix + [edge] + graph.random_path(edge[1], rnd), "cover")
                 info["cover"] += 1
-    total = sum(len(v) for v in graph.succ.values())
-    info["edges"] = total
+    info["edges"] = graph.nedges
     info["edges_covered"] = len(covered)
     return cases, info
 
@@ -366,6 +374,48 @@ def _validate(traces, tmp, workers, cov):
     return verdicts, diverged
 
 
+def _corruptions(traces, by_id):
+    '''Binding self-test: copies of traces TLC is expected to accept, with one
+    recorded field flipped each; TLC must reject every copy with the named
+    clause.  -> [(corrupted trace, expected clause)]'''
+    import copy
+
+    def pick(scheme):
+        for trace in traces:
+            case = by_id[trace["id"]]
+            if (trace["scheme"] == scheme and trace["nruns"] == 2 and not trace["split"]
+                    and trace["pre"] == 0 and trace["ver"][:2] == [1, 1]
+                    and not case["model_bad"] and trace["id"] != 0
+                    and all(f["res"] == "ok" for f in trace["fin"][:2])):
+                return trace
+        return None
+    res = []
+    multi, single = pick("multiple"), pick("single")
+    if multi:
+        bad = copy.deepcopy(multi)            # PSy layer names the other run's file
+        bad["fin"][0]["used"], bad["fin"][1]["used"] = (bad["fin"][1]["used"],
+                                                        bad["fin"][0]["used"])
+        res.append((bad, "PsyUsesOwn"))
+        bad = copy.deepcopy(multi)            # a second run wrote into the file
+        item = bad["events"][-1]["fs"][0]
+        item["w"] = sorted(set(item["w"]) | {1, 2})
+        res.append((bad, "WrittenByOne"))
+        bad = copy.deepcopy(multi)            # names inside carry another tag
+        item = bad["events"][-1]["fs"][0]
+        item["inner"] = item["inner"] + 1
+        res.append((bad, "NamesInside"))
+    if single:
+        bad = copy.deepcopy(single)           # identical kernels, yet one run failed
+        readers = [r for r in (1, 2) if any(e["run"] == r and e["call"] == "read"
+                                            for e in bad["events"])]
+        if readers:
+            bad["fin"][readers[0] - 1] = {"res": "error", "used": -1, "msg": ""}
+            res.append((bad, "SingleFailOnlyIfDifferent"))
+    for i, (bad, _) in enumerate(res):
+        bad["id"] = 900001 + i
+    return res
+
+
 def _brief(trace):
     return {"id": trace["id"], "scheme": trace["scheme"], "pre": trace["pre"],
             "ver": trace["ver"], "nruns": trace["nruns"], "split": trace["split"],
@@ -377,6 +427,27 @@ def _brief(trace):
 
 # ------------------------------------------------------------------------ run
 
+def _model_tlc(spec, cfg, **kw):
+    '''core.run_tlc; with PV_C29_CACHE=<dir> (development only) the output of
+    the model-level runs, which depend on the specification alone, is reused.'''
+    cache = os.environ.get("PV_C29_CACHE")
+    if not cache:
+        return core.run_tlc(spec, cfg, **kw)
+    import hashlib
+    import pickle
+    with open(os.path.join(core.SPEC, spec)) as f1, open(os.path.join(core.SPEC, cfg)) as f2:
+        key = hashlib.sha1((f1.read() + f2.read() + str(kw.get("coverage"))).encode()).hexdigest()
+    path = os.path.join(cache, f"{cfg}-{key}.pkl")
+    if os.path.exists(path):
+        with open(path, "rb") as fin:
+            return pickle.load(fin)
+    res = core.run_tlc(spec, cfg, **kw)
+    os.makedirs(cache, exist_ok=True)
+    with open(path, "wb") as fout:
+        pickle.dump(res, fout)
+    return res
+
+
 def _phase(name, t0):
     print(f"[C29] {name}: {time.time() - t0:.1f}s", flush=True)
     return time.time()
@@ -387,12 +458,12 @@ def run(tier):
     clock = time.time()
     out = core.Outcome(PROP, tier, "model_checking", matchers=MATCHERS)
     quick = tier == "quick"
-    workers = core.NCPU
+    workers = int(os.environ.get("PV_PROCS", core.NCPU))   # PV_PROCS: development only
     cov = {"states": 0, "transitions": 0, "traces_validated_against_impl": 0,
            "samples": [], "exhaustive": False, "divergences": 0, "unsupported": 0}
 
     # 1. design level: all interleavings of <= 3 runs -------------------------
-    res = core.run_tlc("KernelOutput.tla", "KernelOutput_multiple.cfg", check=False,
+    res = _model_tlc("KernelOutput.tla", "KernelOutput_multiple.cfg", check=False,
                        workers=workers, coverage=not quick)
     if res.invariant_violated or res.error:
         raise core.MachineryError("KernelOutput.tla ('multiple', 3 runs, split writes) "
@@ -403,7 +474,7 @@ def run(tier):
     cov["model_states_multiple"] = res.distinct
     if not quick:
         cov["model_action_coverage"] = {k: v[0] for k, v in res.coverage().items()}
-    res = core.run_tlc("KernelOutput.tla", "KernelOutput_single.cfg", check=False,
+    res = _model_tlc("KernelOutput.tla", "KernelOutput_single.cfg", check=False,
                        workers=workers)
     if res.error:
         raise core.MachineryError("KernelOutput_single.cfg: " + res.error)
@@ -419,24 +490,28 @@ def run(tier):
     rnd = random.Random(1000003 * core.seed() + 29)
     next_id = [1]
     cases, sched_info = [], {}
-    dumps = [("KernelOutput_dump.cfg", False, 20 if quick else 3000,
-              300 if quick else 20000)]
+    dumps = [("KernelOutput_dump.cfg", False, 20 if quick else 800,
+              300 if quick else 6000)]
     dumps.append(("KernelOutput_dump_split.cfg", True, 0, 0) if quick else
-                 ("KernelOutput_dump_split_thorough.cfg", True, 1500, 10000))
+                 ("KernelOutput_dump_split_thorough.cfg", True, 300, 3000))
     for cfg, split, per3, cap in dumps:
-        res = core.run_tlc("KernelOutput.tla", cfg, check=False, workers=workers)
+        res = _model_tlc("KernelOutput.tla", cfg, check=False, workers=workers)
         if res.error or res.invariant_violated:
             raise core.MachineryError(f"{cfg}: {res.error or res.invariant_violated}")
         graph = Graph(res, split)
         cov["states"] += res.distinct
         cov["transitions"] += res.generated
-        new, info = _schedules(graph, per3, cap, rnd, next_id)
+        new, info = _schedules(graph, per3, cap, rnd, next_id, quick)
         cases += new
         sched_info[cfg] = info
     if cex:
         cases.append({"id": 0, "split": False, "origin": "tlc-counterexample",
                       "model": None, "model_bad": ["SingleShared"], **cex})
     cov["schedules"] = sched_info
+    limit = int(os.environ.get("PV_C29_LIMIT", "0"))        # development only
+    if limit and len(cases) > limit:
+        cases = cases[::len(cases) // limit] + cases[-1:]
+        cov["dev_limit"] = limit
 
     clock = _phase(f"transition dumps -> {len(cases)} schedules", clock)
     # 3. binding A: replay every schedule with real concurrent runs -----------
@@ -456,11 +531,20 @@ def run(tier):
     cov["replay_steps_differing_from_model"] = differ
 
     # 4. binding B: TLC validates the recorded traces and decides -------------
+    corrupted = _corruptions(traces, by_id)
     tmp = core.mktemp("pv-c29-")
     try:
-        verdicts, diverged = _validate(traces, tmp, workers, cov)
+        verdicts, diverged = _validate(traces + [c for c, _ in corrupted], tmp,
+                                       workers, cov)
     finally:
         shutil.rmtree(tmp, ignore_errors=True)
+    for bad, clause in corrupted:
+        verdict = verdicts.pop(bad["id"], None)
+        diverged.pop(bad["id"], None)
+        if verdict is None or clause not in verdict["v"]:
+            raise core.MachineryError(
+                f"corrupted trace (expected {clause}) was not rejected by TLC: {verdict}")
+    cov["corrupted_traces_rejected"] = [c for _, c in corrupted]
     clock = _phase("TLC trace validation", clock)
     cov["traces_validated_against_impl"] = len(traces)
     cov["divergences"] = len(diverged)
@@ -521,3 +605,37 @@ def run(tier):
         "a file-system call is atomic (SplitWrite models a write seen in two halves)",
         "content classes are relative to the text the same code writes in a "
         "sequential, unshimmed run"])
+
+
+def replay_file(path):
+    '''Re-run one recorded case (a replays/C29-*.json file or a JSON object with
+    scheme, pre, ver, nruns, split, sched) with real runs and let TLC judge it.'''
+    core.setup_psyclone_env()
+    with open(path) as fin:
+        data = json.load(fin)
+    case = dict(data.get("case", data))
+    case.setdefault("split", False)
+    case["id"] = 1
+    _prepare()
+    trace = _replay_chunk([{k: case[k] for k in ("id", "scheme", "pre", "ver", "nruns",
+                                                  "split", "sched")}])[0]
+    if "stall" in trace:
+        raise core.MachineryError(trace["stall"])
+    for event in trace["events"]:
+        print("  ", event["run"], event["call"], event["name"], event["flags"],
+              event["res"], event["cls"], event["fs"])
+    print("   end:", [(f["res"], f["used"]) for f in trace["fin"][:trace["nruns"]]])
+    tmp = core.mktemp("pv-c29-")
+    try:
+        cov = {"states": 0, "transitions": 0}
+        verdicts, diverged = _validate([trace], tmp, 2, cov)
+    finally:
+        shutil.rmtree(tmp, ignore_errors=True)
+    print("VERDICT", json.dumps(verdicts.get(1, "ok")))
+    if diverged:
+        print("DIVERGE", json.dumps(diverged[1]))
+    return 1 if verdicts else 0
+
+
+if __name__ == "__main__":
+    sys.exit(replay_file(sys.argv[1]))
